@@ -7,5 +7,9 @@ CONSTANTS
   FullAlphabet = FALSE
   Walk = FALSE
   MaxSteps = 3
-INVARIANTS DeviationOnlyViaCache FreshIsChoose PrecedenceOK
+  Tight = FALSE
+  Warm = FALSE
+  Per = 8
+  Rebuild = "limit-burst"
+INVARIANTS DeviationOnlyViaCache FreshIsChoose PrecedenceOK BoundOK ZeroOK
 CHECK_DEADLOCK FALSE
